@@ -221,6 +221,15 @@ def run(ctx, chk):
                               "may be)", f"condition {f_show(cond)}", r.ev.loc)
         chk.ob("C08.where", f"{K}: exactly one store of the target's row", len(target_rows) == 1,
                f"{len(target_rows)} store(s)", fn)
+        # presence: a successful action writes its target's row; a subnet scan also one row per
+        # discovered address (an entitled row that is never written is an omission)
+        addrs = [cn.show(r.addr) for r in rows]
+        chk.ob("C08.where", f"{K}: the target's row is written", "action.target" in addrs,
+               f"rows written: {sorted(set(addrs))}", fn)
+        if K == "SubnetScan":
+            chk.ob("C08.where", "SubnetScan: a row is written for each discovered address",
+                   any(a != "action.target" for a in addrs), f"rows written: {sorted(set(addrs))}",
+                   fn)
         # exhaustiveness: the NotImplementedError arm is unreachable for this class
         chk.ob("C08.exhaustive", f"{K}: has an observation branch (no raise reachable)",
                not of.raises, "; ".join(ev.loc for ev in of.raises), fn, nontrivial=False)
